@@ -68,12 +68,35 @@ def judge_render(run, cases, rows):
                         theorem="Arb.Cases.render_ok")
 
 
+def judge_applied(run, cases, rows3):
+    """the composition that reaches NGINX: the change batches, applied in order, leave configured exactly the active
+    masters with their attached minions and the active VirtualServers with their attached routes -- a master or
+    VirtualServer that lost its host must be removed with everything attached to it (the C03 shadow, restricted to
+    the composition: minions, routes, a composed resource missing or left behind)"""
+    from . import c03
+    for c in cases:
+        if c.get("error") or c["id"] not in rows3:
+            continue
+        r = rows3[c["id"]]
+        if r[c03.STEP] == 0:
+            continue
+        ev = c["histories"][0]["events"][r[c03.STEP] - 1]
+        code = r[c03.CODE]
+        if code in (14, 15) or (code in (30, 31) and ev["spec"]["kind"] in ("ing", "vs", "vsr")):
+            run.failing({"kind": "applied-composition", "field": c03.FIELDS.get(code, str(code)), "event_kind": ev["spec"]["kind"]}, [c],
+                        "C04: applying the change batches returned by the real Configuration in order, after step %d of case %d what is configured is not the "
+                        "composition GetResources() declares (a parent that lost its host stays configured with its minions / routes, or a composition is stale): %s (%s)"
+                        % (r[c03.STEP], c["id"], c03.FIELDS.get(code, code), json.dumps(c03.describe(c, r[c03.STEP]))[:500]),
+                        theorem="Arb.Cases.shadow_run")
+
+
 def check(run):
     n = 250 if run.tier == "quick" else 5000
     run.proof_obligations()
     cases = arb.generate(run, n, ctl=True)
     rows = arb.evaluate(run, cases, fn="c04_case")
     judge(run, cases, rows)
+    judge_applied(run, cases, arb.evaluate(run, cases, fn="c03_case", tag="arb3"))
     part = [c for c in cases if not c.get("error") and any(st.get("render") for st in c["ctl"])][: (120 if run.tier == "quick" else 2500)]
     judge_render(run, part, arb.evaluate(run, part, fn="c04_render_case", extra=render_term, tag="arbrender"))
     run.cov["render_level_histories"] = len(part)
